@@ -1,3 +1,3 @@
 CONSTANTS Design = "intended" Lis = {0, 3} Plans = "cover"
 SPECIFICATION Spec
-INVARIANTS NoIgnoredLogged NoIgnoredCounted AnonStored AnonReported SearchNames SearchClientsIdentifiable OracleConsistent
+INVARIANTS NoIgnoredLogged NoIgnoredCounted AnonStored AnonReported SearchNames SearchClientsIdentifiable OracleConsistent RegistryAsConfigured
